@@ -181,6 +181,19 @@ func locOrigins(v ssa.Value) []ssa.Value {
 			return []ssa.Value{x.X}
 		case *ssa.Phi:
 			return x.Edges
+		case *ssa.Call:
+			// a module helper that picks the location: what it returns
+			if callee := x.Call.StaticCallee(); callee != nil && callee.Blocks != nil && callee.Pkg != nil && an.IsModulePkg(callee.Pkg.Pkg) && callee.Signature.Results().Len() == 1 {
+				var out []ssa.Value
+				an.EachInstr(callee, func(in ssa.Instruction) {
+					if ret, ok := in.(*ssa.Return); ok {
+						out = append(out, resultsOf(ret)[0])
+					}
+				})
+				if len(out) > 0 {
+					return out
+				}
+			}
 		case *ssa.UnOp:
 			if x.Op == token.MUL {
 				switch a := x.X.(type) {
@@ -319,6 +332,10 @@ func runP1(p *an.Prog, r *an.Result) {
 					return
 				}
 			}
+			if ts.Top && fromReflectiveCall(p, pn.X) {
+				r.OK(name, "panic(value returned by caller-supplied code)", pos, "the panic re-raises what a function called through reflect.Value.Call returned - a struct method of a binding, or the non-error second result of a registered filter (F1 checks the standard ones; AddFilter validates the result count): caller-supplied code is outside the model, as the README documents")
+				return
+			}
 			if ts.Top {
 				r.Bad(name, construct, pos, fmt.Sprintf("%s panics with a value whose dynamic type cannot be bounded (%s); if it is not one of the types the recover boundary converts, it leaves the engine as a panic", name, ts.TopWhy))
 				return
@@ -341,4 +358,48 @@ func runP1(p *an.Prog, r *an.Result) {
 	}
 	r.Floor("recover boundaries", 2)
 	r.Floor("panic sites", 20)
+}
+
+// fromReflectiveCall: every origin of v (through element reads, Interface() and the arguments at the
+// call sites of unexported functions) is the result list of a reflect.Value.Call.
+func fromReflectiveCall(p *an.Prog, v ssa.Value) bool {
+	ip := stepIP(p)
+	seen := map[ssa.Value]bool{}
+	found, ok := false, true
+	var visit func(x ssa.Value, depth int)
+	visit = func(x ssa.Value, depth int) {
+		if x == nil || seen[x] || depth > 12 || !ok {
+			return
+		}
+		seen[x] = true
+		for _, o := range an.Origins(x, ip) {
+			switch y := o.(type) {
+			case *ssa.Call:
+				switch an.CallName(&y.Call) {
+				case "(reflect.Value).Call", "(reflect.Value).CallSlice":
+					found = true
+				case "(reflect.Value).Interface":
+					visit(y.Call.Args[0], depth+1)
+				default:
+					ok = false
+				}
+			case *ssa.UnOp:
+				if ia, isIA := y.X.(*ssa.IndexAddr); isIA && y.Op == token.MUL {
+					visit(ia.X, depth+1)
+				} else {
+					ok = false
+				}
+			case *ssa.Index:
+				visit(y.X, depth+1)
+			case *ssa.TypeAssert:
+				visit(y.X, depth+1)
+			case *ssa.Extract:
+				visit(y.Tuple, depth+1)
+			default:
+				ok = false
+			}
+		}
+	}
+	visit(v, 0)
+	return found && ok
 }
